@@ -340,9 +340,44 @@ func fwrite(fr *frame, w value, s value) value {
 	return r
 }
 
+// errorfOperands: in fmt.Errorf, an operand of a named string type that has a
+// String method (starlark.String, Bytes: String() = syntax.Quote) and whose
+// bytes are symbolic is rendered as its raw text instead of running the
+// quoting code on symbolic bytes (forks per byte class; message text only).
+func errorfOperands(fr *frame, vs []value) []value {
+	var out []value
+	for i, a := range vs {
+		itf, ok := a.(iface)
+		if !ok || itf.t == nil {
+			continue
+		}
+		ss, isSym := itf.v.(symString)
+		if !isSym {
+			continue
+		}
+		if b, isBasic := itf.t.Underlying().(*types.Basic); !isBasic || b.Kind() != types.String {
+			continue
+		}
+		if !hasMethod(fr.i.prog, itf.t, "String", 0, "string") {
+			continue
+		}
+		if out == nil {
+			out = append([]value(nil), vs...)
+		}
+		out[i] = iface{t: types.Typ[types.String], v: ss}
+		if fr.i.ps != nil && fr.i.ps.res != nil {
+			fr.i.ps.res.Assumes["fmt.Errorf: symbolic starlark String/Bytes operand printed unquoted (message text only)"] = true
+		}
+	}
+	if out == nil {
+		return vs
+	}
+	return out
+}
+
 func extErrorf(fr *frame, args []value) value {
 	f, _ := args[0].(string)
-	msg := formatf(fr, args[0], args[1].([]value))
+	msg := formatf(fr, args[0], errorfOperands(fr, args[1].([]value)))
 	if i := strings.Index(f, "%w"); i >= 0 {
 		// find the operand matching the first %w
 		n := 0
